@@ -11,6 +11,10 @@
          `Spec/JsStmt.execStmts` from `opt_data` = the data, `output = ''`; a `{call}` runs the callee's body the
          same way (`calleeG`, calls nested at most 8 deep) on the data object the call builds; the directive function
          soy.$$escapeHtml is read as `htmlEscape ∘ ToString`, every other library function is `unspec`.
+         When EVERY template of the file is in the fragment (Props/C04f `toFile`) the model works at the FUNCTION
+         level instead: the text is that of all functions of the file (`renderFunc`, the names' counter running
+         through the file; marked by a trailing ` F`), and the entry function is called through the table of the
+         translated functions of all such files (Spec/JsStmt `callFn`, depth 9) — no callee oracle.
          answer: `OK <hex of output> <hex of the statements' text>` | `ERROR <hex text>` (a thrown
          TypeError) | `UNSPEC <hex text>` (outside the common subset, or out of fuel) | `OUTSIDE`
          (the body is not in the fragment) | `NOFILE` | `NOTEMPLATE` | `BADTREE` | `BADREQ`
@@ -18,10 +22,12 @@
 import SoyVerif.Ops.Common
 import SoyVerif.Ops.Check
 import SoyVerif.Props.C04d
+import SoyVerif.Props.C04e
+import SoyVerif.Props.C04f
 
 namespace SoyVerif.Ops.JsSem
 open SoyVerif SoyVerif.Ops SoyVerif.Model SoyVerif.Model.JsGen SExp
-open SoyVerif.Spec.JsSemRef SoyVerif.Spec.JsStmt SoyVerif.Props.C04d
+open SoyVerif.Spec.JsSemRef SoyVerif.Spec.JsStmt SoyVerif.Props.C04d SoyVerif.Props.C04f
 
 partial def decJVal : SExp → Option JVal
   | list [atom "u"] => some .undefined
@@ -54,26 +60,33 @@ def findTemplate (name : Bytes) : List Cmd → Autoescape → Option (Block × A
 
 def sOutput : Bytes := b!"output"
 
-/-- the callee oracle of Spec/JsStmt for the compiled files: the generated function `name` — the statements of the
-    template's body (translated from a fresh scope; the names' counter does not matter to their meaning), run from
-    `opt_data` = the data object and `output = ''` — returns its output; `depth` bounds the nesting of calls -/
+/-- the callee oracle of Spec/JsStmt for the compiled files: Props/C04e `genCall` with the templates looked up in the
+    files — the generated function `name` is `genBody`: the statements of the template's body (translated from a
+    fresh scope; the names' counter does not matter to their meaning), run from `opt_data` = the data object and
+    `output = ''`, return its output; `depth` bounds the nesting of calls -/
 def calleeG (fs : List SoyFile) (fuel : Nat) : Nat → Bytes → JVal → JOut
   | 0, _, _ => .unspec
   | depth + 1, name, .obj kvs =>
     match fs.findSome? (fun f => findTemplate name f.body .unspecified) with
     | none => .unspec
-    | some (.mk _ cmds, ae) =>
-      match toCmds ae sOutput cmds ⟨[[]], 0⟩ with
-      | none => .unspec
-      | some r =>
-        match execStmts libF (calleeG fs fuel depth) fuel r.1 ⟨kvs, none, [(sOutput, .str [])]⟩ with
-        | .ok e =>
-          (match e.locals.find? (·.1 == sOutput) with
-            | some (_, .str out) => .val (.str out)
-            | _ => .unspec)
-        | .error => .error
-        | .unspec => .unspec
+    | some (body, ae) =>
+      SoyVerif.Props.C04e.genBody libF fuel (calleeG fs fuel depth)
+        { (default : Registry.Tmpl) with name := name, body := body, autoescape := ae, nsAutoescape := ae } kvs
   | _ + 1, _, _ => .unspec
+
+/-- the functions of all files whose every template is in the fragment (Props/C04f `toFile`: the counter of
+    generated names runs through each file) -/
+def tableOf (fs : List SoyFile) : List JsFunc :=
+  fs.flatMap fun f => match toFile f with
+    | some r => r.1
+    | none => []
+
+def answer (r : JOut) (text : String) : String :=
+  match r with
+  | .val (.str out) => "OK " ++ Bytes.toHexWire out ++ " " ++ text
+  | .val _ => "UNSPEC " ++ text
+  | .error => "ERROR " ++ text
+  | .unspec => "UNSPEC " ++ text
 
 def ops : List Op := [
   ("jssem", fun f => match f with
@@ -83,6 +96,15 @@ def ops : List Op := [
         match fs.find? (·.name == fnm) with
         | none => "NOFILE"
         | some file =>
+          match toFile file with
+          | some funcs =>
+            -- FUNCTION level: every template of the file is in the fragment.  The text is that of ALL its functions
+            -- (the file the generator writes ends with it); the entry function is CALLED through the table
+            if (funcs.1.find? (·.name == tn)).isSome then
+              answer (callFn libF (tableOf fs) fuel 9 tn (.obj optData))
+                (Bytes.toHexWire (printPieces (funcs.1.flatMap (renderFunc false 0))) ++ " F")
+            else "NOTEMPLATE"
+          | none =>
           match findTemplate tn file.body .unspecified with
           | none => "NOTEMPLATE"
           | some (.mk _ cmds, ae) =>
